@@ -275,7 +275,11 @@ def match_known(known, prop, rec):
     for k in known:
         if k.get('property') != prop or k.get('status') != 'open':
             continue
-        if _noshard(k.get('query')) != _noshard(rec['query']):
+        if k.get('query_regex'):
+            import re
+            if not re.match(k['query_regex'], _noshard(rec['query'])):
+                continue
+        elif _noshard(k.get('query')) != _noshard(rec['query']):
             continue
         cls = k.get('input_class')
         if cls:
@@ -359,18 +363,19 @@ def finish(prop, tier, seed, obs, results, wall, level_text=None):
     for r in violated:
         k = match_known(known, prop, r)
         (known_hits if k else new_viol).append((r, k))
-    seen_k = set()
+    seen_k = {}
     for r, k in known_hits:
-        kk = _noshard(r['query'])
-        if kk in seen_k:
-            continue
-        seen_k.add(kk)
-        print('KNOWN-FINDING: property=%s %s :: %s' % (prop, kk, k.get('what', '')))
+        seen_k.setdefault(id(k), [k, []])[1].append(_noshard(r['query']))
+    for k, qs in seen_k.values():
+        uq = sorted(set(qs))
+        label = uq[0] if len(uq) == 1 else '%s (+%d more queries of this finding)' % (uq[0], len(uq) - 1)
+        print('KNOWN-FINDING: property=%s %s :: %s' % (prop, label, k.get('what', '')))
     for r, _ in new_viol:
         print('VIOLATION property=%s replay=%s' % (prop, r.get('replay')))
         print('  query=%s witness=%s model=%s' % (r['query'], r.get('witness'), json.dumps(r.get('model'), default=str)[:600]))
     for r in incon:
-        print('INCONCLUSIVE property=%s query=%s status=%s %s' % (prop, r['query'], r['status'], (r.get('detail') or '')[:300]))
+        print('INCONCLUSIVE property=%s query=%s status=%s %s%s' % (prop, r['query'], r['status'], (r.get('detail') or '')[:300],
+              (' model=' + json.dumps(r.get('model'), default=str)[:1500] + ' decisions=' + str(r.get('path_decisions'))) if r.get('status') == 'unreproduced' and r.get('model') else ''))
     for e in errors:
         print('HARNESS-ERROR property=%s %s' % (prop, e[:2000]))
     samples = []
